@@ -110,3 +110,63 @@ def run(ctx):
                                 a3 = True
         ctx.ob("A3.SPACE-CHECK", name, a3, "write dominated by a free-space comparison" if a3 else
                "%s writes the cell without comparing the needed size with the free space" % name, w.loc())
+    split_pairing(ctx)
+
+
+def split_pairing(ctx):
+    """A5 SPLIT-PAIRING: in split_interior the new separator goes to position p of the merged separator list and the new right child to
+    position p + 1 of the merged child list (child i + 1 is the subtree right of separator i).  The index of the child insertion is
+    the separator index plus the constant 1."""
+    m = ctx.m
+    fs = [f for f in m.fns.values() if f.kind != "closure" and f.id.startswith("btree::tree::BTree::") and f.id.endswith("::split_interior")]
+    if len(fs) != 1:
+        raise CheckError("split_interior: %d candidates" % len(fs))
+    f = fs[0]
+    ins = [c for c in f.calls if c.name.rsplit("::", 1)[-1] == "insert" and "Vec" in c.name and len(c.args) >= 3]
+    sep = [c for c in ins if "[u8]" in c.full]
+    chi = [c for c in ins if "u32" in c.full and "[u8]" not in c.full]
+    if not sep or not chi:
+        raise CheckError("split_interior: separator/child insertions not found (%d/%d)" % (len(sep), len(chi)))
+    sp = operand_place(sep[0].args[1])
+    ok = False
+    for c in chi:
+        pl = operand_place(c.args[1])
+        if pl is None:
+            continue
+        k, p, _ = f.origin(pl[0])
+        ds = f.defs().get(pl[0], [])
+        # (insert_pos + 1).0
+        loc = pl[0]
+        for _ in range(4):
+            ds = f.defs().get(loc, [])
+            if len(ds) == 1 and ds[0][0] == "stmt" and ds[0][3][0] == "use":
+                q = operand_place(ds[0][3][1])
+                if q is None:
+                    break
+                loc = q[0]
+                continue
+            break
+        ds = f.defs().get(loc, [])
+        if len(ds) == 1 and ds[0][0] == "stmt" and ds[0][3][0] == "bin" and ds[0][3][1] in ("Add", "AddWithOverflow") and ds[0][3][3][0] == "k" and ds[0][3][3][4] == 1:
+            a = operand_place(ds[0][3][2])
+            if a is not None and sp is not None and _same_local(f, a[0], sp[0]):
+                ok = True
+    ctx.ob("A5.SPLIT-PAIRING", "split_interior", ok, "child inserted at separator position + 1" if ok else
+           "the new right child is not inserted at (separator position + 1): the two halves of the split child end up on the wrong sides of "
+           "the new separator and lookups for their keys are routed to the wrong page", chi[0].loc())
+
+
+def _same_local(f, a, b, depth=4):
+    def root(x):
+        d = depth
+        while d > 0:
+            d -= 1
+            ds = f.defs().get(x, [])
+            if len(ds) != 1 or ds[0][0] != "stmt" or ds[0][3][0] != "use":
+                return x
+            q = operand_place(ds[0][3][1])
+            if q is None or q[1]:
+                return x
+            x = q[0]
+        return x
+    return root(a) == root(b)
